@@ -20,7 +20,7 @@ TABLE = {
     "C18": ("p_c18", 1200, 40000),
     "C15": ("p_c15", 300, 4000),
     "C16": ("p_c16", 800, 16000),
-    "C17": ("p_c17", 240, 3000),
+    "C17": ("p_c17", 720, 9000),
     "C19": ("p_c19", 600, 12000),
     "C20": ("p_c20", 700, 15000),
 }
@@ -45,7 +45,7 @@ RULE["C10"] = "even cases: random models (30% automatic tasks, individual absenc
 RULE["C18"] = "random simulated models (40% facility-rich, half with a project absence list, 15% containing a BaseSubProjectTask) followed by 1-4 remove/insert edits with index lists drawn from {interior, step 0, last, beyond the end, duplicates of present steps, empty, unsorted, mixed}; every third case is insert-then-remove on an absence-free result compared with the logs before; after each edit every log (reflection) must have changed by the same amount and equal project.time, inserted steps must be zero-cost / no-work; non-trivial = an interior index edited on a run with >= 1 placement"
 RULE["C15"] = "random models (35% facility-rich) and perturbed fixtures; reference = uninterrupted run under a fixed hash assignment; for pause points k (quick: 0, 1, T-1, T and 3 random; thorough: EVERY k in [0, T]) a fresh model is simulated to max_time=k and resumed with both initialisations off, in memory and through write_simple_json -> new project -> read_simple_json; complete dumps (logs, costs, time, status, final live state) compared exactly; the JSON variant is only demanded when every constructor parameter of every object (runtime reflection) equals the original after the load; non-trivial = a pause strictly inside the run while a task is WORKING"
 RULE["C16"] = "3 of 4 cases: random models (40% facility-rich, 20% with a BaseSubProjectTask, edge values 0/-1 in due times) brought to one of 8 stages (never simulated, initialized, paused at k, finished forward, finished backward with/without log reversal, after insert_absence_time_list, after remove_absence_time_list), then write -> read into a new project -> write again: JSON files compared value-for-value, every cross reference checked for identity membership in the restored project (explicit list + generic sweep over all attributes), re-simulation of original and restored project compared exactly when no constructor parameter was lost; 1 of 4 cases: parameter coverage by execution - one constructor parameter (runtime reflection over 7 classes) is perturbed on up to 14 generated models: if any dump changes it is observed simulation-relevant and must then survive save/load; non-trivial = stage other than never-simulated with a live allocation or placement (stage cases), parameter observed relevant (param cases)"
-RULE["C17"] = "random models and perturbed fixtures with random due times (incl. -1 and ties), both settings of considering_due_time_of_tail_tasks and reverse_log_information; per model: forward reference run, identity snapshot of every input/output list of tasks and workplaces, one un-faulted backward run (structure, helper tasks, log alignment, FS order in the reversed logs, forward re-run compared exactly), then one backward run per injection point in which the step observer raises at exactly that (step, phase) of the inner run - quick: 8 sampled points + first + last, thorough: EVERY (step, phase) notified by the reference run; after each aborted run structure and forward result are re-checked; non-trivial = the injected exception was really raised and propagated out of backward_simulate"
+RULE["C17"] = "random models and perturbed fixtures with random due times (incl. -1 and ties), both settings of considering_due_time_of_tail_tasks and reverse_log_information; per model: forward reference run, identity snapshot of every input/output list of tasks and workplaces, one un-faulted backward run (structure, helper tasks, log alignment, FS order in the time-reversed logs, forward re-run compared exactly); 2 of 3 cases stop there (dependency-order workload with own workers and many FS links mixed with SS/FF/SF); 1 of 3 cases continue with one backward run per injection point in which the step observer raises at exactly that (step, phase) of the inner run - quick: 8 sampled points + first + last, thorough: EVERY (step, phase) notified by the reference run; after each aborted run structure and forward result are re-checked; non-trivial = the injected exception was really raised and propagated out of backward_simulate"
 RULE["C19"] = "first cases: EXHAUSTIVE enumeration of all state sequences of length 0..6 (quick) / 0..8 (thorough) for task and component logs (4 states) and worker and facility logs (3 states) x margins {0, 0.5, 1, 2}, each compared with a reference run-length encoder; then random long sequences (<= 60, long runs and frequent changes) incl. the plotly chart rows (index k -> init_datetime + k * unit_timedelta, with view_ready / view_absence), random extract_*_list queries on workflows, products, teams and workplaces (time lists with duplicates, empty, beyond the end), set_last_datetime with several units, and the logs of real simulations; non-trivial = sequence length >= 3 (exhaustive chunks) / every random, query and real-log case"
 RULE["C20"] = "end to end with the real code: a generated feasible sub-project (durations 1-30, half with an absence list inside the run, some with steps beyond the end) is simulated, saved, a BaseSubProjectTask is configured from the file (with / without absence steps), its unit is related to the parent's (7 unit lengths, integer and non-integer ratios), the task is placed at a random position (head, middle, tail; FS/SS/FF/SF links) of a generated parent workflow which is simulated under the C01/C06 monitors; checked: work amount = duration, unit, number of WORKING steps = ceil(duration x sub unit / parent unit), consecutive working steps, no worker; every 5th case: configuring from an unsimulated or failed project must warn and leave every attribute of the task unchanged; non-trivial = unit ratio != 1 or absence steps inside the sub-project run (duration cases), every refusal case"
 # minimal number of non-trivial cases / monitor evaluations for a conclusive run: (counter, quick, thorough)
@@ -63,7 +63,7 @@ FLOORS = {
     "C18": [("C18.edits", 1500, 50000), ("C18.log_delta_checks", 50000, 1500000), ("C18.roundtrip_comparisons", 150, 5000)],
     "C15": [("C15.memory_resumes", 1000, 60000), ("C15.json_resumes", 200, 10000), ("C15.pauses_inside_run_with_working_task", 200, 20000)],
     "C16": [("C16.roundtrip_comparisons", 300, 8000), ("C16.reference_checks", 10000, 300000), ("C16.resimulations", 50, 1500), ("C16.param_observed_relevant", 15, 400)],
-    "C17": [("C17.faults_raised_and_propagated", 1000, 100000), ("C17.structure_checks", 1000, 100000), ("C17.forward_comparisons", 1000, 100000)],
+    "C17": [("C17.faults_raised_and_propagated", 1000, 100000), ("C17.structure_checks", 1000, 100000), ("C17.forward_comparisons", 1000, 100000), ("C17.fs_order_checks", 150, 3000)],
     "C19": [("C19.encoder_checks", 30000, 1000000), ("C19.query_checks", 3000, 80000), ("C19.row_checks", 1000, 30000), ("C19.date_checks", 1000, 30000), ("C19.exhaustive_chunks", 28, 36)],
     "C20": [("C20.parent_runs", 200, 5000), ("C20.configurations", 300, 8000), ("C20.refusal_checks", 60, 1500)],
     "C06": [("C06.pairs_examined", 1000, 30000), ("C06.none_checks", 1000, 30000)],
